@@ -119,6 +119,37 @@ Definition float64_of (d : decimal) : f64 * bool :=
 
 End WithParseFloat.
 
+(* ---- specification: the nearest binary64, ties to even, overflow to infinity, sign kept ---- *)
+Definition rnd (x : R) : R := round radix2 (SpecFloat.fexp prec emax) ZnearestE x.
+
+(* f is the correctly rounded binary64 of the real x, whose sign flag is neg
+   (x = 0 or a result rounded to zero keeps the sign of the numeral) *)
+Definition correctly_rounded (neg : bool) (x : R) (f : f64) : Prop :=
+  if Rlt_bool (Rabs (rnd x)) (bpow radix2 emax)
+  then is_finite f = true /\ B2R f = rnd x /\ Bsign f = neg
+  else f = B754_infinity neg.
+
+(* what is assumed of strconv.ParseFloat: round to nearest even of the numeral m * 10^e, overflow to +Inf *)
+Definition parse_float_correct (pf : positive -> Z -> f64) : Prop :=
+  forall m e, correctly_rounded false (IZR (Zpos m) * bpow radix10 e)%R (pf m e).
+
+(* the inputs on which the pinned code is correct: zero; a uint64 mantissa without exponent;
+   Clinger's fast path (mantissa <= 2^53, base 10, |e| <= 22); a base-2 mantissa <= 2^53 (one Ldexp);
+   base 10 with a mantissa above 2^53 (the strconv branch).
+   Outside: base 10, mantissa <= 2^53, |e| > 22 (several roundings, table entry 23), and base 2 with
+   a mantissa above 2^53 (truncation to 53 bits). *)
+Definition pinned_guard (d : decimal) : bool :=
+  let w := d_mant d in
+  (w =? 0)%N
+  || ((w <? 2 ^ 64)%N && (d_e d =? 0))
+  || (negb (d_bin d) && (w <=? max_mant64)%N && (-22 <=? d_e d) && (d_e d <=? 22))
+  || (d_bin d && (w <=? max_mant64)%N)
+  || (negb (d_bin d) && (max_mant64 <? w)%N).
+
+(* the inputs on which the pinned exact flag is sound *)
+Definition pinned_exact_guard (d : decimal) : bool :=
+  (d_mant d =? 0)%N || (d_e d =? 0) || (max_mant64 <? d_mant d)%N.
+
 (* ---- a concrete correctly rounding decimal reader (realises the assumption on parse_float and is
         what the in-Coq evaluation of the correspondence uses for the strconv branch) ---- *)
 Definition ref_parse_float (m : positive) (e : Z) : f64 :=
